@@ -21,7 +21,13 @@ independent owner-matching questions (harness "match").  Integer tokens only.
       `on`/`mt`/`al` + sorted (node uid) pairs, `fe node uid*` for nodes 1..3
   cyc uid empty q0 q1 q2 hasAff hasName node a0 a1 a2 t0 t1 t2 chosen unreserve k (uid ownerOK nameMatch affOK)*
       one scheduling cycle of a normal pod on `node` (a: node allocatable, t: NodeInfo.Requested of the snapshot)
-      -> `matched uid*`, `pre c`, `flt c`, `nf uid 0|1`*, `nom 0|uid` | `nom among uid* 1`, `rsv c` + dump, [`unr` + dump]
+      -> `matched uid*`, `pre c`, `flt c`, `nf uid 0|1`*, `nom 0|uid` | `nom among uid* 1`, `rsv c` + dump,
+         [`pb c annUid`], [`unr` + dump]
+      unreserve = roll-back stage: 0 none, 1 Unreserve right after Reserve (also after a FAILED Reserve, as the
+      framework does), 2 PreBind then Unreserve, 3 PreBind only (PreBind runs only after a successful Reserve)
+  rres listed n <robj>              Reserve of the RESERVE pod of <robj> (the lister's object, listed = 0: lister miss)
+                                    on node n -> `rsv c` + dump
+  runr listed n podUid <robj>       Unreserve of that reserve pod -> `unr` + dump
   fit ru q0 q1 q2 p0 p1 p2 prePods  -> `fit pods f0 f1 f2` | `fit none`
   nom ru                            -> `nom 0|1` | `nom none`
   own perr k (obj ctrl lbl)*        -> `own 0|1`                                   (MatchOwners)
@@ -122,7 +128,7 @@ def parseCyc : List Int → Option CycIn
         qHas := fun d => empty == 0 && maskPos [q0, q1, q2] d,
         hasAff := ha != 0, hasName := hn != 0, node := node.toNat,
         nAlloc := fun d => [a0, a1, a2].getD d 0, nTotal := fun d => [t0, t1, t2].getD d 0,
-        cands := cs, chosen := ch.toNat, unreserve := un != 0 })
+        cands := cs, chosen := ch.toNat, unreserve := un == 1 || un == 2, preBind := un == 2 || un == 3 })
   | _ => none
 
 def showNats (tag : String) (l : List Nat) : String := " ".intercalate (tag :: (sortNat l).map toString)
@@ -145,10 +151,14 @@ def runCycle (c : Cache) (x : CycIn) : Cache × List String :=
   let u := nomUid x nom
   let (c1, code) := reserveM c x u
   let l3 := l2 ++ nfs ++ [nomLine, s!"rsv {code}"] ++ dump c1
-  if x.unreserve && code == 0 then
-    let c2 := unreserveM c1 x u code
-    (c2, l3 ++ ["unr"] ++ dump c2)
-  else (c1, l3)
+  let assumed := if code == 0 then u else 0
+  let pb := preBindM assumed x.hasAff
+  let doPB := x.preBind && code == 0
+  let l4 := if doPB then l3 ++ [s!"pb {pb.1} {pb.2.1}"] else l3
+  if x.unreserve then
+    let c2 := unreservePodM c1 assumed (doPB && pb.2.2) x.pod.uid
+    (c2, l4 ++ ["unr"] ++ dump c2)
+  else (c1, l4)
 
 /-- one line: new cache + output lines -/
 def stepLine (c : Cache) (line : String) : Cache × List String :=
@@ -229,6 +239,24 @@ def stepLine (c : Cache) (line : String) : Cache × List String :=
     match (ints? rest).bind parseCyc with
     | some x => runCycle c x
     | none => bad
+  | "rres" :: rest =>
+    match ints? rest with
+    | some (listed :: n :: l) =>
+      match parseRObj l with
+      | some o =>
+        let (c', code) := reserveRsvM c (if listed != 0 then some o else none) n.toNat
+        (c', s!"rsv {code}" :: dump c')
+      | none => bad
+    | _ => bad
+  | "runr" :: rest =>
+    match ints? rest with
+    | some (listed :: n :: pu :: l) =>
+      match parseRObj l with
+      | some o =>
+        let c' := unreserveRsvM c (if listed != 0 then some o else none) pu.toNat n.toNat
+        (c', "unr" :: dump c')
+      | none => bad
+    | _ => bad
   | "fit" :: rest =>
     match ints? rest with
     | some [ru, q0, q1, q2, p0, p1, p2, pp] =>
